@@ -312,6 +312,7 @@ func main() {
 	})
 	registerPaths(r)
 	r.Register("sites", func(a []string) string { return strings.Join(censusSites(r), ",") })
+	r.Register("reach", func(a []string) string { return strings.Join(reachCensus(r), ",") })
 	if r.Replayed() {
 		return
 	}
